@@ -11,14 +11,47 @@ use trusttunnel::settings::{
 };
 use trusttunnel::verif::ctx::Ctx;
 
+/// Per-process scratch directory (removed by a later run once the process is gone)
 pub fn work_dir(root: &std::path::Path, sub: &str) -> PathBuf {
-    let p = root.join(".work").join(sub);
+    let p = root.join(".work").join(format!("{}-{}", sub, std::process::id()));
     std::fs::create_dir_all(&p).expect("create work dir");
     p
 }
 
+/// Remove scratch directories of processes that no longer exist
+pub fn sweep_work(root: &std::path::Path) {
+    if let Ok(rd) = std::fs::read_dir(root.join(".work")) {
+        for e in rd.flatten() {
+            let name = e.file_name().to_string_lossy().to_string();
+            if let Some((_, pid)) = name.rsplit_once('-') {
+                if pid.chars().all(|c| c.is_ascii_digit()) && !pid.is_empty()
+                    && !std::path::Path::new(&format!("/proc/{}", pid)).exists()
+                {
+                    let _ = std::fs::remove_dir_all(e.path());
+                }
+            }
+        }
+    }
+}
+
+type CertCache = std::sync::Mutex<std::collections::HashMap<(PathBuf, String), (String, String, Vec<u8>)>>;
+static CERTS: std::sync::OnceLock<CertCache> = std::sync::OnceLock::new();
+
 /// Self-signed certificate + key for `host`, written as PEM files; returns (cert path, key path, cert DER)
 pub fn make_cert(dir: &std::path::Path, host: &str, sans: &[String]) -> (String, String, Vec<u8>) {
+    // generated once per (directory, host) in this process; workers share the files
+    let cache = CERTS.get_or_init(Default::default);
+    let mut guard = cache.lock().unwrap();
+    let key = (dir.to_path_buf(), format!("{}|{}", host, sans.join(",")));
+    if let Some(x) = guard.get(&key) {
+        return x.clone();
+    }
+    let r = make_cert_uncached(dir, host, sans);
+    guard.insert(key, r.clone());
+    r
+}
+
+fn make_cert_uncached(dir: &std::path::Path, host: &str, sans: &[String]) -> (String, String, Vec<u8>) {
     let mut names = vec![host.to_string()];
     names.extend(sans.iter().cloned());
     let ck = rcgen::generate_simple_self_signed(names).expect("rcgen");
